@@ -7,6 +7,7 @@
 mod rng;
 mod c14;
 mod common;
+mod pools;
 
 use common::*;
 use rng::Rng;
@@ -50,6 +51,15 @@ fn main() {
                         let c = c14::gen_case(&rt, &mut r, maxlabels);
                         print_case(id, &profile, &c.cfg, &c.labels, &c.obs, &c.err);
                     }
+                    "sqlite" | "r2d2" | "diesel" => {
+                        let mgr = match profile.as_str() {
+                            "sqlite" => 0,
+                            "r2d2" => 1,
+                            _ => 2,
+                        };
+                        let c = pools::gen_case(&rt, &mut r, mgr, maxlabels.max(10));
+                        print_case(id, &profile, &c.cfg, &c.labels, &c.obs, &c.err);
+                    }
                     _ => {
                         eprintln!("unknown profile {}", profile);
                         std::process::exit(2);
@@ -77,6 +87,10 @@ fn main() {
                         let c = c14::replay_case(&rt, &cfg, &labels);
                         print_case(id, &profile, &c.cfg, &c.labels, &c.obs, &c.err);
                     }
+                    "sqlite" | "r2d2" | "diesel" => {
+                        let c = pools::replay_case(&rt, &cfg, &labels);
+                        print_case(id, &profile, &c.cfg, &c.labels, &c.obs, &c.err);
+                    }
                     _ => {
                         eprintln!("unknown profile {}", profile);
                         std::process::exit(2);
@@ -86,5 +100,6 @@ fn main() {
         }
         _ => std::process::exit(2),
     }
+    pools::cleanup();
     rt.shutdown_background();
 }
